@@ -149,6 +149,9 @@ func (w *World) addContract(c *Contract) {
 
 // resolvePkgName maps a package name, as used in a contract file, to an import path.
 func (w *World) resolvePkgName(from *types.Package, name string) string {
+	if name == "builtin" {
+		return "builtin" // universe types: builtin.error.Error
+	}
 	if from.Name() == name {
 		return from.Path()
 	}
